@@ -226,11 +226,29 @@ def _point():
         s.point()
 
 
+def proc_state():
+    """process-wide interpreter settings an evaluation has no business changing: they are shared by all threads"""
+    import decimal
+    import locale
+    return dict(recursionlimit=sys.getrecursionlimit(), switchinterval=sys.getswitchinterval(),
+                decimal_prec=decimal.getcontext().prec, locale=locale.setlocale(locale.LC_ALL, None),
+                int_max_str_digits=sys.get_int_max_str_digits(), tz=os.environ.get('TZ'), dont_write_bytecode=sys.dont_write_bytecode)
+
+
+PROC = dict(base=None, changed=None)
+
+
 def install_call_point():
     from yaql.language import runner
     orig = runner.call
+    PROC['base'] = proc_state()
+    PROC['changed'] = None
 
     def call(*a, **k):
+        if PROC['changed'] is None:
+            now = proc_state()
+            if now != PROC['base']:
+                PROC['changed'] = {k_: (PROC['base'][k_], v) for k_, v in now.items() if v != PROC['base'][k_]}
         _point()
         return orig(*a, **k)
     runner.call = call
@@ -331,6 +349,9 @@ POOL = [
     # errors are outcomes too
     ('$.a.first() / ($.n - $.n)', 'math,error'), ('nosuch($.n)', 'system,error'), ('$.a.select($.nosuch())', 'queries,error'),
     ("$.rows.groupBy($.k, $.v, $.nosuch())", 'queries,group,error'), ('[1, 2].unpack(a) -> $a', 'system,error'),
+    # nested statements (well below the interpreter's recursion limit: near it the outcome depends on the frames the
+    # harness itself adds)
+    ('$.n' + ' + 1' * 40, 'deep'), ('(' * 120 + '$.n' + ')' * 120, 'deep'),
 ]
 
 
@@ -393,6 +414,8 @@ def canon(v):
 def outcome(f):
     try:
         return ['ret', canon(f())]
+    except RecursionError:
+        return ['raise', 'RecursionError', '']          # the message names whatever frame happened to be the last
     except Exception as e:  # noqa
         return ['raise', type(e).__name__, str(e)[:200]]
 
@@ -881,6 +904,16 @@ def part_a(seed, tier, share, nshares, deadline):
                                       case=dict(kind='stmt', texts=texts, datas=datas, styles=styles, schedule=[], full=True)))
         stats['ctx_writes'] = owners.writes['context']
         stats['lazy_writes'] = owners.writes['lazy']
+        stats['process_state_changed'] = 1 if PROC['changed'] else 0
+        if PROC['changed'] and not fails:
+            # no evaluation returned a wrong result in the schedules tried, but evaluations change process-wide
+            # interpreter settings while they run - state every other thread lives under: the isolation argument
+            # (C18.isolation: steps write only private state) no longer applies
+            soft.setdefault('process-state', dict(
+                kind='mismatch', key='process-state',
+                what='an evaluation changed process-wide interpreter state while running (seen at a function dispatch): %r'
+                     % (PROC['changed'],),
+                case=dict(kind='stmt', texts=[pool[0][0]], datas=[0], styles=['plain'], schedule=[], full=True)))
     finally:
         uninstall()
         owners.uninstall()
